@@ -37,28 +37,44 @@ SET = ["open", "openat", "creat", "write", "pwrite64", "writev", "pwritev", "pwr
        "fsync", "fdatasync", "rename", "renameat", "renameat2", "link", "linkat", "unlink", "unlinkat", "close",
        "copy_file_range", "sendfile", "fchmod", "chmod", "fchmodat", "mkdir", "mkdirat", "rmdir", "symlink", "symlinkat"]
 SETNAMES = set(SET)
+# scenarios whose operation READS files that are not the destination (source files registered by path, an external listfile, the source
+# archive of a rebuild) or re-reads what it wrote (create, rebuild+verify), and the compact scenarios added with them, also get every
+# read call of the window killed / failed: an I/O error on a source is an I/O error during the build
+READS = ["read", "pread64", "readv", "preadv", "preadv2"]
 MODES = ["kill", "ENOSPC", "EIO"]
 HEADER_SIZE = {1: 32, 2: 44, 3: 68, 4: 208}
 
 RULE = ("scenarios = ArchiveBuilder::build V1-V4 x {dest absent, dest present (older valid archive, different content)} x {5 small files, one 3-sector file} "
-        "+ MutableArchive::compact on V1 and V4 archives holding deleted entries and two multi-sector members (+ on V1/V2 with unflushed, content-neutral modifications pending in the session, so that the handle is dirty when a failed compact is dropped); content seeded by VERIF_SEED. Per scenario a baseline under strace gives the window of N "
+        "+ MutableArchive::compact on V1 and V4 archives holding deleted entries and two multi-sector members (+ on V1/V2 with unflushed, content-neutral modifications pending in the session, so that the handle is dirty when a failed compact is dropped) "
+        "+ later legs: builds with sector checksums and a full (attributes) file, with ListfileOption::External (listfile read from a file on disk), without listfile, with members registered by path "
+        "(add_file / add_file_with_options / add_file_with_encryption: read from disk during build()); wow_mpq::rebuild_archive V1/V4 x {target absent, present}, target == source (V1, V3), RebuildOptions.verify (V2); "
+        "OpenOptions::version(v).create(path) V1-V4 over an existing destination (+ V2 absent); compact on V2, V3 and on a V1 archive carrying (attributes); SFileCreateArchive2 (V1, V3, V4 + attribute flags) over an existing destination. "
+        "In these later scenarios the read calls (read/pread64/readv/preadv) belong to the fault set as well: a failing read of a source file, of the external listfile, of the source archive is an I/O error during the build. "
+        "Content seeded by VERIF_SEED. Per scenario a baseline under strace gives the window of N "
         "state-changing system calls between the worker's two marker syscalls; one case = one process run with one fault point: (k, mode) with mode in {kill on entry, ENOSPC, EIO} "
         "at the k-th call of the window; a fault sequence (error at k, then kill / EIO at a later call of the resulting error path); or an RLIMIT_FSIZE byte limit x "
-        "{SIGXFSZ ignored => short write then EFBIG, default => death at that byte}. Both tiers: every k x every mode x every scenario. quick: 16 size limits per scenario "
+        "{SIGXFSZ ignored => short write then EFBIG, default => death at that byte}. Both tiers: every k x every mode x every scenario of the original set (build, compact, compact-pending, ffi-create and their +layouts); "
+        "the later legs: thorough every k, quick per kind of call (name@target) every occurrence up to four, else the first two, the last two and every third in between, and fault sequences only behind the ENOSPC runs (k_executed lists them per scenario). quick: 16 size limits per scenario "
         "{0,1,31,32,33,header size,size-1 + evenly spaced}, fault sequences on the first and last call of each error path; thorough: every byte limit 0..size-1, every call of each error path. "
         "Oracle, post-mortem by a separate process after the faulted one has exited: sha256(dest) == sha256(old) | dest absent (only if it was absent) | dest accepted by the "
-        "read-back oracle (opens, every expected file found, right size, byte-identical, listed); BUILD-ERR => dest unchanged; BUILD-OK => complete new archive. "
+        "read-back oracle (opens, every expected file found, right size, byte-identical, listed - not demanded of an archive built without listfile; for create / SFileCreateArchive*: opens, lists, holds no user file); "
+        "BUILD-ERR => dest unchanged (ArchiveBuilder::build and rebuild_archive without verify); BUILD-OK => complete new archive. "
         "A case is non-trivial iff its own strace log shows the fault(s) fired inside the window; distinct_nontrivial = distinct (scenario, k-or-limit, mode) points that fired. "
-        "Runs whose fault did not fire in the window are inconclusive, never held. exhaustive (thorough) refers to the single-fault space of these 18 scenarios at this seed: "
+        "Runs whose fault did not fire in the window are inconclusive, never held. exhaustive (thorough) refers to the single-fault space of the listed scenarios at this seed: "
         "every call of the window x 3 modes and every byte limit x 2 dispositions.")
 ASSUME = [
     "C-API scenarios (ffi-create-*: SFileCreateArchive + SFileCloseArchive, worker vh-ffi/c12_ffi) are build + open of the result: a reported failure after a completed build (the open failed) leaves the complete "
     "new archive, which the two-state clause allows; 'an error leaves the destination untouched' is judged for ArchiveBuilder::build only",
+    "OpenOptions::create (= ArchiveBuilder::build + open of the result) and rebuild_archive with RebuildOptions.verify (= build + verification pass) are judged like the C-API creation: an error "
+    "reported after the completed build leaves the complete new archive (counted err_after_commit|<leg>); rebuild_archive without verify ends with the build, so its error must leave the target untouched. "
+    "rebuild_archive with target == source: previous content = the source archive, complete new = the rebuilt archive holding every member of the source",
+    "files the operation reads (source files of add_file*, the external listfile, the source archive of a rebuild) are written once per scenario before any faulted run, outside the window, in a directory named aux; "
+    "calls on them appear as <call>@source in signatures and counters",
     "destination layouts '+symlink' (a symbolic link to the previous archive) and '+tmpname' (a file name ending in .tmp) are judged at the same path: what the path resolves to afterwards",
     "power-loss semantics are out of reach: there is no fsync before the rename, but page-cache loss cannot be produced by process faults, and the statement speaks of process death and I/O errors only",
     "fault points are single faults at every call of the fault-free path, plus two-fault sequences (error at k, then kill / EIO at a later call of the error path that follows); a second fault on the same "
     "syscall name as the first cannot be expressed with strace's one-rule-per-syscall injector and is left out (counted); longer sequences are not explored",
-    "the fault set is the state-changing calls (the statement lists open/write/pwrite/lseek/fsync/rename/unlink); read/pread/fstat/mmap are not faulted",
+    "the fault set is the state-changing calls (the statement lists open/write/pwrite/lseek/fsync/rename/unlink); in the original scenarios read/pread are not faulted, in the later legs they are; fstat/mmap never",
     "compact set-up: the archive with deleted entries is made by MutableArchive add+remove+flush in a separate process; if that does not yield a readable archive on the tree under test "
     "(V3+ on this tree, C06's domain) the set-up falls back to remove-only, recorded per scenario as setup_variant and in notes",
     "the clause 'a build that returns an error leaves the previous destination untouched' is applied to ArchiveBuilder::build; for compact the first sentence is applied (dest = previous content or the complete "
@@ -308,10 +324,21 @@ def all_scenarios():
             for kind in ("small", "big"):
                 out.append(f"build-v{v}-{st}-{kind}")
     out += ["compact-v1", "compact-v4", "compact-v1-pending", "compact-v2-pending"]
+    # builds that carry sector checksums + an (attributes) file, take their listfile from a file on disk, have no listfile, or
+    # read their members from files on disk during build()
+    out += ["build-v2-present-small-attrs", "build-v4-absent-small-attrs", "build-v2-present-small-extlist", "build-v1-absent-small-nolist",
+            "build-v3-present-small-nolist", "build-v1-present-small-disk", "build-v2-absent-big-disk", "build-v4-present-small-disk"]
+    # rebuild_archive writes a complete archive at its target path (-same: the target is the source; -verify: RebuildOptions.verify)
+    out += ["rebuild-v1-absent", "rebuild-v1-present", "rebuild-v4-absent", "rebuild-v4-present", "rebuild-v1-same", "rebuild-v3-same", "rebuild-v2-present-verify"]
+    # OpenOptions::create: an empty archive is built at the path, then opened
+    out += ["create-v1-present", "create-v2-present", "create-v3-present", "create-v4-present", "create-v2-absent"]
+    # compaction of V2 / V3 archives and of an archive that carries an (attributes) file
+    out += ["compact-v2", "compact-v3", "compact-v1-attrs"]
     # other shapes of the destination path ("<scenario>+<layout>"): a symbolic link to the previous archive; a file name that
     # itself ends in .tmp (a working copy) - the same operations, judged at the same path
     # the C API's way of creating an archive (worker vh-ffi/c12_ffi): creation dispositions over an existing / an absent destination
     out += ["ffi-create-always", "ffi-create-truncate", "ffi-create-new", "ffi-create-truncate+symlink"]
+    out += ["ffi-create2-v1", "ffi-create2-v3", "ffi-create2-v4-attrs"]
     out += ["build-v1-present-small+symlink", "build-v4-present-small+symlink", "compact-v1+symlink", "build-v2-present-small+tmpname", "compact-v1+tmpname", "compact-v2-pending+tmpname"]
     return out
 
@@ -339,22 +366,63 @@ def place_dest(sc, d):
 
 
 def _sc_fields(name):
+    """op = entry point as it appears in signatures; strict_err: 'an error leaves the destination untouched' is demanded (a build, and
+    nothing after it); reads: read calls are part of the fault window; needs_aux: the operation reads files prepared beforehand;
+    family: the leg the scenario belongs to (evidence counters)."""
     p = name.split("-")
+    if p[0] == "ffi" and p[1] == "create2":
+        return {"op": "ffi-create2", "ver": int(p[2][1:]), "present": True, "kind": "empty", "ffi": True, "strict_err": False, "reads": True, "family": "ffi-create2"}
     if p[0] == "ffi":
-        return {"op": "build", "ver": 2, "present": p[2] != "new", "kind": "empty", "ffi": True}
+        return {"op": "build", "ver": 2, "present": p[2] != "new", "kind": "empty", "ffi": True, "strict_err": False, "family": "ffi-create"}
     if p[0] == "build":
-        return {"op": "build", "ver": int(p[1][1:]), "present": p[2] == "present", "kind": p[3]}
-    return {"op": "compact", "ver": int(p[1][1:]), "present": True, "kind": "small"}
+        opt = p[4] if len(p) > 4 else ""
+        return {"op": "build", "ver": int(p[1][1:]), "present": p[2] == "present", "kind": p[3], "strict_err": True, "opt": opt,
+                "reads": opt in ("disk", "extlist"), "needs_aux": opt in ("disk", "extlist"), "family": "build" + ("+" + opt if opt else "")}
+    if p[0] == "rebuild":
+        verify, same = p[3:] == ["verify"], p[2] == "same"
+        return {"op": "rebuild" + ("-in-place" if same else "") + ("+verify" if verify else ""), "ver": int(p[1][1:]), "present": p[2] != "absent", "kind": "small",
+                "strict_err": not verify, "reads": True, "needs_aux": not same, "family": "rebuild" + ("-same" if same else "") + ("+verify" if verify else "")}
+    if p[0] == "create":
+        return {"op": "create", "ver": int(p[1][1:]), "present": p[2] == "present", "kind": "empty", "strict_err": False, "reads": True, "family": "create"}
+    opt = p[2] if len(p) > 2 else ""
+    new = opt == "attrs" or (not opt and p[1] in ("v2", "v3"))
+    return {"op": "compact", "ver": int(p[1][1:]), "present": True, "kind": "small", "strict_err": False, "reads": new,
+            "family": "compact" + ("+" + opt if opt else "") + ("-" + p[1] if new and not opt else "")}
+
+
+ORIGINAL_FAMILIES = ("build", "compact", "compact+pending", "ffi-create")
+
+
+def quick_ks(sc, seed):
+    """quick tier, scenarios of the later legs: per kind of call (name@target) of the window every occurrence if there are at most four,
+    else the first two, the last two and every third in between (phase from the seed).  Every structurally different fault point stays in;
+    the long runs of like calls (writes to the temp file, reads and seeks on a source) are thinned.  thorough: every k."""
+    by = {}
+    for c in sc["window"]:
+        by.setdefault(f"{c['name']}@{c['target']}", []).append(c["k"])
+    keep = set()
+    for ks in by.values():
+        if len(ks) <= 4:
+            keep.update(ks)
+        else:
+            keep.update(ks[:2] + ks[-2:])
+            keep.update(k for i, k in enumerate(ks) if (i + int(seed)) % 3 == 0)
+    return keep
+
+
+def sc_set(sc):
+    return SET + READS if sc.get("reads") else SET
 
 
 _LINE = re.compile(r"^(?:\[pid\s+\d+\]\s+|\d+\s+)?([a-z_0-9]+)\((.*)$")
 
 
-def parse_log(text):
+def parse_log(text, names=None):
     """strace log -> dict(calls=[...], begin=index|None, end=index|None, killed=sig|None, exited=rc|None, signals=[...]).
 
     calls = every call of SET in program order since process start; begin/end = number of SET calls seen when the marker passed."""
     calls, begin, end, killed, exited, signals = [], None, None, None, None, []
+    names = SETNAMES if names is None else names
     counts = {}
     fds = {}
     for line in text.splitlines():
@@ -384,7 +452,7 @@ def parse_log(text):
             elif "/verif-marker-end" in s:
                 end = len(calls)
             continue
-        if name not in SETNAMES:
+        if name not in names:
             continue
         counts[name] = counts.get(name, 0) + 1
         r = s.rstrip()
@@ -397,6 +465,8 @@ def parse_log(text):
 def _pclass(path):
     """Semantic class of a path: the destination itself, a temp sibling, or something else."""
     b = os.path.basename(path)
+    if "/aux/" in path:
+        return "source"
     if b in ("dest.mpq", "dest.mpq.tmp"):
         return "dest"
     if b == "real.mpq":
@@ -478,10 +548,12 @@ def strace_cmd(ctx, sc, dest, log=None, inject=None):
     cmd = ["strace", "-f", "-s", "24"]
     if log:
         cmd += ["-o", log]
-    cmd += ["-e", "trace=" + ",".join(SET) + ",access"]
+    cmd += ["-e", "trace=" + ",".join(sc_set(sc)) + ",access"]
     if inject:
         cmd += ["-e", "inject=" + inject]
     cmd += [ctx.bin_for(sc), "--seed", str(ctx.seed), "--scenario", sc.get("base", sc["name"]), "--variant", sc.get("variant", "full"), "--dest", dest]
+    if sc.get("aux"):
+        cmd += ["--aux", sc["aux"]]
     return cmd
 
 
@@ -521,6 +593,12 @@ def prepare(ctx, name):
         sc["old"] = old
         sc["sha_old"] = sha256(old)
         sc["old_size"] = os.path.getsize(old)
+    if sc.get("needs_aux"):
+        # (the directory is named aux: _pclass recognises what lies in it as a source of the operation)
+        sc["aux"] = os.path.join(d, "aux")
+        p = ctx.worker(["--make-aux", "--scenario", sc["base"], "--aux", sc["aux"]], cwd=d)
+        if p.returncode != 0 or not p.stdout.startswith("SETUP-OK"):
+            return {"name": name, "failed": "the files the operation reads could not be produced: " + p.stdout.strip()[:300]}
     p = ctx.worker(["--describe", "--scenario", sc["base"], "--variant", sc["variant"]], cwd=d)
     try:
         sc["describe"] = json.loads(p.stdout)
@@ -535,7 +613,7 @@ def prepare(ctx, name):
     st, msg = status_of(p.stdout)
     if not os.path.exists(log):
         raise sup.Broken(f"strace produced no log for the baseline of {name}: {p.stderr[-400:]}")
-    pl = parse_log(open(log, errors="replace").read())
+    pl = parse_log(open(log, errors="replace").read(), set(sc_set(sc)))
     if pl["begin"] is None or pl["end"] is None:
         return {"name": name, "failed": f"baseline did not pass both markers (status {st} {msg})"}
     if st != "BUILD-OK" or not os.path.exists(dest):
@@ -601,7 +679,7 @@ def run_point(ctx, sc, pt, keep=False):
         if not keep:
             shutil.rmtree(rd, ignore_errors=True)
         return out
-    pl = parse_log(logtext)
+    pl = parse_log(logtext, set(sc_set(sc)))
     st, msg = status_of(p.stdout)
     out["status"], out["msg"], out["rc"] = st, msg, p.returncode
     # ---- did the fault fire inside the window, according to this run's own log?
@@ -712,7 +790,9 @@ def judge(sc, st, state):
     # (SFileCreateArchive = build + open of the result: it can report failure after a *completed* build - the open failed -, which
     # leaves the complete new archive behind; the statement's "a build that returns an error" is the build, so for the C-API
     # scenarios only the two-state clause and "success means complete" are judged)
-    if st == "BUILD-ERR" and sc["op"] == "build" and not sc.get("ffi") and not unchanged:
+    # (the same holds for OpenOptions::create = build + open and for rebuild_archive with verify = build + verification; rebuild_archive
+    # without verify ends with the build, so its error is the build's)
+    if st == "BUILD-ERR" and sc.get("strict_err") and not unchanged:
         return "build-err-but-dest-changed"
     if st == "BUILD-OK" and state != "new-complete":
         return "build-ok-but-dest-incomplete"
@@ -726,7 +806,10 @@ def judge(sc, st, state):
 def inject_points(sc, tier, seed):
     """Every call of the window x every mode (both tiers: a scenario has 4-60 calls, one run costs ~30 ms)."""
     pts = []
+    keep = quick_ks(sc, seed) if tier != "thorough" and sc["family"] not in ORIGINAL_FAMILIES else None
     for c in sc["window"]:
+        if keep is not None and c["k"] not in keep:
+            continue
         for mode in MODES:
             pts.append({"kind": "inject", "k": c["k"], "name": c["name"], "ord": c["ord"], "target": c["target"], "mode": mode})
     return pts
@@ -742,6 +825,9 @@ def sequence_points(sc, r, tier, seed):
     skipped = len(after) - len(usable)
     if tier != "thorough" and len(usable) > 2:
         usable = [usable[0], usable[-1]]
+    if tier != "thorough" and sc["family"] not in ORIGINAL_FAMILIES and pt["mode"] != "ENOSPC":
+        # (later legs, quick: the error paths are entered once per k - through ENOSPC -, not once per errno)
+        usable = []
     pts = []
     for c in usable:
         for mode2 in ("kill", "EIO"):
@@ -855,9 +941,17 @@ def absorb(res, r, tier, seed):
     res.add_counter(f"points_executed|{mode}", 1)
     if pt["kind"] == "fsize":
         res.add_counter("size_limit_runs", 1)
+    fam = sc_fields(r["scenario"])["family"]
+    res.add_counter(f"leg_points_executed|{fam}", 1)
     if r.get("fired"):
         res.add_counter(f"points_fired|{mode}", 1)
         res.add_counter(f"fired_at|{r['syscall']}", 1)
+        res.add_counter(f"leg_points_fired|{fam}", 1)
+        if r["syscall"].split("@")[0] in READS:
+            res.add_counter("read_faults_fired", 1)
+        if r["syscall"].endswith("@source"):
+            res.add_counter("faults_fired_on_a_source_of_the_operation", 1)
+            res.add_counter(f"source_fault_outcome|{r.get('status')}|{r.get('dest_state')}", 1)
         if r.get("short_write"):
             res.add_counter("genuine_short_writes_observed", 1)
     if "dest_state" in r:
@@ -868,6 +962,8 @@ def absorb(res, r, tier, seed):
         res.add_counter(f"status|{r.get('status')}", 1)
         if r.get("status") == "BUILD-ERR" and r["scenario"].startswith("compact") and r["dest_state"] == "new-complete":
             res.add_counter("compact_err_after_commit", 1)
+        if r.get("status") == "BUILD-ERR" and not r["scenario"].startswith("compact") and r["dest_state"] == "new-complete" and v != "viol":
+            res.add_counter(f"err_after_commit|{fam}", 1)
     n_tmp = len([x for x in r.get("leftovers", []) if x.startswith(".tmp")])
     if n_tmp:
         res.add_counter("runs_with_leftover_tmp", 1)
